@@ -68,8 +68,11 @@ theorem filter_isObjB_self (xs : List Json) (h : ∀ x ∈ xs, isObjB x = true) 
 theorem roundtrip_publicKey_only_partial (xs : List Json) (hne : xs ≠ []) (hobj : ∀ x ∈ xs, isObjB x = true) :
     fromDocument (.obj [("publicKey", .arr xs)]) = some [mkPatch "add-public-keys" "publicKeys" (.arr xs)] ∧
     applyPatches (.obj []) [mkPatch "add-public-keys" "publicKeys" (.arr xs)] = .ok (.obj [("publicKey", .arr xs)]) := by
+  have hem : isEmptyList (.arr xs) = false := by cases xs with
+    | nil => exact absurd rfl hne
+    | cons _ _ => rfl
   constructor
-  · simp [fromDocument, Json.lookup, stringEntry, sortByName, insertMember, List.foldlM, pure]
+  · simp [fromDocument, Json.lookup, sortByName, insertMember, List.foldlM, pure, hem]
   · obtain ⟨hp, hv⟩ := mkPatch_accessors "add-public-keys" "publicKeys" (.arr xs) (by decide) (by decide)
     have hup : upsertById [] xs = xs := by
       unfold upsertById
@@ -90,8 +93,11 @@ theorem roundtrip_publicKey_only_partial (xs : List Json) (hne : xs ≠ []) (hob
 theorem roundtrip_service_only_partial (xs : List Json) (hne : xs ≠ []) (hobj : ∀ x ∈ xs, isObjB x = true) :
     fromDocument (.obj [("service", .arr xs)]) = some [mkPatch "add-services" "services" (.arr xs)] ∧
     applyPatches (.obj []) [mkPatch "add-services" "services" (.arr xs)] = .ok (.obj [("service", .arr xs)]) := by
+  have hem : isEmptyList (.arr xs) = false := by cases xs with
+    | nil => exact absurd rfl hne
+    | cons _ _ => rfl
   constructor
-  · simp [fromDocument, Json.lookup, stringEntry, sortByName, insertMember, List.foldlM, pure]
+  · simp [fromDocument, Json.lookup, sortByName, insertMember, List.foldlM, pure, hem]
   · obtain ⟨hp, hv⟩ := mkPatch_accessors "add-services" "services" (.arr xs) (by decide) (by decide)
     have hup : upsertById [] xs = xs := by
       unfold upsertById
@@ -133,5 +139,123 @@ theorem roundtrip_aka_only_partial (us : List String) (hne : us ≠ []) :
     have hf : us.filter (fun _ => true) = us := List.filter_eq_self.mpr (fun _ _ => rfl)
     simp [applyPatches, applyPatch, hp, hv, stringArray, Json.get?, Json.lookup, hs, orderedUnion, setDoc, members,
       Json.setMember, hf, hl]
+
+/-! ### no patch without content (D40) -/
+
+/-- one step of the loop over the sorted members (the function `fromDocument` folds) -/
+def specialStep (acc : List Json) (kv : String × Json) : Option (List Json) :=
+  if (kv.1 = "publicKey" ∨ kv.1 = "service") ∧ isEmptyList kv.2 then some acc
+  else if kv.1 = "publicKey" then some (acc ++ [mkPatch "add-public-keys" "publicKeys" kv.2])
+  else if kv.1 = "service" then some (acc ++ [mkPatch "add-services" "services" kv.2])
+  else if kv.1 = "alsoKnownAs" then
+    match goStringArray kv.2 with
+    | some uris => if uris.isEmpty then none else some (acc ++ [mkPatch "add-also-known-as" "uris" (.arr (uris.map .str))])
+    | none => none
+  else some acc
+
+theorem fromMembers_parts (kvs : List (String × Json)) (ps : List Json)
+    (h : fromDocument (.obj kvs) = some ps) :
+    ∃ sp, (sortByName kvs).foldlM specialStep [] = some sp ∧
+      (ps = sp ∨ ∃ v, ps = sp ++ [mkPatch "ietf-json-patch" "patches" v]) := by
+  simp only [fromDocument] at h
+  split at h
+  · exact absurd h (by simp)
+  · split at h
+    · exact absurd h (by simp)
+    · rename_i sp hsp
+      refine ⟨sp, ?_, ?_⟩
+      · rw [← hsp]; rfl
+      · split at h
+        · left; simpa using h.symm
+        · right; exact ⟨_, by simpa using h.symm⟩
+
+/-- a patch that adds an empty list of keys or services: what the validator refuses -/
+def AddsNothing (p : Json) : Prop :=
+  p = mkPatch "add-public-keys" "publicKeys" (.arr []) ∨ p = mkPatch "add-services" "services" (.arr [])
+
+theorem foldlM_invariant {α β} (P : List β → Prop) (f : List β → α → Option (List β))
+    (hstep : ∀ acc x acc', P acc → f acc x = some acc' → P acc') :
+    ∀ (L : List α) (acc out : List β), P acc → L.foldlM f acc = some out → P out
+  | [], acc, out, h, he => by simp [List.foldlM, pure] at he; exact he ▸ h
+  | x :: xs, acc, out, h, he => by
+    simp only [List.foldlM_cons, bind] at he
+    cases hf : f acc x with
+    | none => simp [hf] at he
+    | some acc' =>
+      simp only [hf, Option.bind_some] at he
+      exact foldlM_invariant P f hstep xs acc' out (hstep acc x acc' h hf) he
+
+theorem mk_nonempty (a k : String) (v : Json) (h : isEmptyList v = false) : ¬ AddsNothing (mkPatch a k v) := by
+  intro hn
+  have : v = .arr [] := by
+    rcases hn with e | e <;> (simp only [mkPatch, Json.obj.injEq, List.cons.injEq, Prod.mk.injEq] at e; exact e.2.1.2)
+  subst this
+  simp [isEmptyList] at h
+
+theorem specialStep_inv (acc : List Json) (kv : String × Json) (acc' : List Json)
+    (hacc : ∀ p ∈ acc, ¬ AddsNothing p) (hf : specialStep acc kv = some acc') :
+    ∀ p ∈ acc', ¬ AddsNothing p := by
+  have snoc : ∀ q, ¬ AddsNothing q → ∀ p ∈ acc ++ [q], ¬ AddsNothing p := by
+    intro q hq p hp
+    rcases List.mem_append.mp hp with hp | hp
+    · exact hacc p hp
+    · simp only [List.mem_singleton] at hp; subst hp; exact hq
+  unfold specialStep at hf
+  cases hv : isEmptyList kv.2 with
+  | true =>
+    by_cases hk : kv.1 = "publicKey" ∨ kv.1 = "service"
+    · simp only [hk, hv, and_self, if_true, Option.some.injEq] at hf; subst hf; exact hacc
+    · have h1 : kv.1 ≠ "publicKey" := fun e => hk (Or.inl e)
+      have h2 : kv.1 ≠ "service" := fun e => hk (Or.inr e)
+      simp only [h1, h2, false_or, false_and, if_false] at hf
+      split at hf
+      · split at hf
+        · split at hf
+          · exact absurd hf (by simp)
+          · simp only [Option.some.injEq] at hf; subst hf
+            exact snoc _ (by simp [AddsNothing, mkPatch])
+        · exact absurd hf (by simp)
+      · simp only [Option.some.injEq] at hf; subst hf; exact hacc
+  | false =>
+    simp only [hv, Bool.false_eq_true, and_false, if_false] at hf
+    split at hf
+    · simp only [Option.some.injEq] at hf; subst hf; exact snoc _ (mk_nonempty _ _ _ hv)
+    · split at hf
+      · simp only [Option.some.injEq] at hf; subst hf; exact snoc _ (mk_nonempty _ _ _ hv)
+      · split at hf
+        · split at hf
+          · split at hf
+            · exact absurd hf (by simp)
+            · simp only [Option.some.injEq] at hf; subst hf
+              exact snoc _ (by simp [AddsNothing, mkPatch])
+          · exact absurd hf (by simp)
+        · simp only [Option.some.injEq] at hf; subst hf; exact hacc
+
+/-- **`PatchesFromDocument` never produces a patch that adds an empty list of keys or services**,
+    whatever the document: such a member is left out -/
+theorem fromDocument_adds_something (doc : Json) (ps : List Json) (h : fromDocument doc = some ps) :
+    ∀ p ∈ ps, ¬ AddsNothing p := by
+  have key : ∀ kvs, fromDocument (.obj kvs) = some ps → ∀ p ∈ ps, ¬ AddsNothing p := by
+    intro kvs h
+    obtain ⟨sp, hsp, hps⟩ := fromMembers_parts kvs ps h
+    have hinv := foldlM_invariant (fun acc => ∀ p ∈ acc, ¬ AddsNothing p) specialStep
+      specialStep_inv _ [] sp (by simp) hsp
+    rcases hps with e | ⟨v, e⟩
+    · subst e; exact hinv
+    · subst e
+      intro p hp
+      rcases List.mem_append.mp hp with hp | hp
+      · exact hinv p hp
+      · simp only [List.mem_singleton] at hp; subst hp
+        simp [AddsNothing, mkPatch]
+  cases doc with
+  | obj kvs => exact key kvs h
+  | null => exact key [] h
+  | _ => simp [fromDocument] at h
+
+/-- non-vacuity: an empty key list next to a service gives the one services patch -/
+example : fromDocument (.obj [("publicKey", .arr []), ("service", .arr [.obj [("id", .str "s")]])]) =
+    some [mkPatch "add-services" "services" (.arr [.obj [("id", .str "s")]])] := by
+  simp [fromDocument, Json.lookup, sortByName, insertMember, List.foldlM, pure, isEmptyList, bind]
 
 end Sidetree.Props.C14
